@@ -379,6 +379,31 @@ ARITH = {'+': lambda a, b: a + b, '-': lambda a, b: a - b, '*': lambda a, b: a *
          '//': lambda a, b: a // b, '%': lambda a, b: a % b, '**': lambda a, b: a ** b}
 INT64_MIN, INT64_MAX = -2 ** 63, 2 ** 63 - 1
 
+# Values a column REFUSES (step 'refuse'): the write raises and the statistics read afterwards must be those of the
+# cells the column holds then (unchanged cells => bit-identical statistics).  Named, so that the program stays JSON.
+#   IntColumn: OverflowError for everything beyond int64 (on the slice / whole-column forms IntColumn._setslicekey
+#   re-creates the buffer and sets the INSTANCE attribute dtype = np.int64 before the error propagates), TypeError for
+#   text / None / nan / inf / objects; every column type: TypeError / ValueError for objects, nested sequences,
+#   sequences of the wrong length, dicts, sets, bytes.
+RVALS = {
+    'int=2^64': 2 ** 64, 'int=2^63': 2 ** 63, 'int=-2^63-1': -2 ** 63 - 1, 'int=1e30': 10 ** 30, 'float=1e30': 1e30,
+    'np.float64=1e30': np.float64(1e30), 'np.uint64>int64': np.uint64(2 ** 63 + 5), 'text=digits>int64': '99999999999999999999',
+    'text=1e30': '1e30', 'text': 'abc', 'emptytext': '', 'none': None, 'nan': float('nan'), 'inf': float('inf'),
+    '-inf': float('-inf'), 'object': object, 'nested': [1, 2], 'tuple3': (1, 2, 3), 'dict': {'a': 1}, 'set': {1, 2},
+    'bytes': b'ab',
+}
+R_OVERFLOW = ['int=2^64', 'int=2^63', 'int=-2^63-1', 'int=1e30', 'float=1e30', 'np.float64=1e30', 'np.uint64>int64',
+              'text=digits>int64', 'text=1e30']
+R_TYPE_INT = ['text', 'emptytext', 'none', 'nan', 'inf', '-inf']            # refused by an IntColumn only
+R_TYPE_ANY = ['object', 'nested', 'tuple3', 'dict', 'set', 'bytes']          # refused by every column type (most forms)
+R_FORMS = ['whole', 'wholescalar', 'all', 'alllist', 'slice', 'slicelist', 'int', 'list', 'listlist', 'sel', 'row',
+           'wronglen', 'slicewronglen', 'array', 'colobj']
+R_FORMS_FREE = ['all', 'alllist', 'slice', 'slicelist', 'int', 'list', 'listlist', 'slicewronglen', 'array', 'colobj']
+# IntColumn cells (each an int64 value) whose exact total is NOT an int64 value: the sum must be computed exactly
+R_BIGTOTAL = [[2 ** 62, -3, 2 ** 62 + 4096, 2 ** 61, 11, 2 ** 62 + 8192], [2 ** 62] * 3, [2 ** 62 + 2 ** 61, 2 ** 62, 1, 1],
+              [2 ** 63 - 1] * 2, [-2 ** 63] * 2, [-2 ** 62, -2 ** 62, -2 ** 62, -1], [2 ** 63 - 1, 2 ** 63 - 1, -5, 7],
+              [2 ** 61] * 5 + [1], [-2 ** 63, -1, 3], [2 ** 62, 2 ** 62, 2 ** 53 + 1]]
+
 
 # A finding about the UNCHANGED tree, kept out of the default stream until the coordinator decides: a MixedColumn holding
 # decimal.Decimal cells (stored unchecked by `col @ f`) next to a float NaN: `unique` and `count` raise
@@ -421,6 +446,7 @@ class Runner:
             dm.c = list(vals)
         self.dm, self.wname, self.rname, self.free = dm, 'c', 'c', None
         self.readings = []
+        self.refusals = []            # per 'refuse' step: (number of readings taken before it, exception class | 'accepted')
 
     def wcol(self):
         return self.free if self.free is not None else self.dm[self.wname]
@@ -445,6 +471,8 @@ class Runner:
                 kind, [x for x in col][:12], e))
         cells = [x for x in col]
         if kind != 'KMixed':
+            # what type of object a cell read hands out (plain int / float is C05's promise; recorded, see judge)
+            obs['_celltypes'] = sorted(set(type(x).__name__ for x in cells))
             cells = [plain(x) for x in cells]
             u = [plain(x) for x in u]
         if kind == 'KInt':
@@ -586,6 +614,8 @@ class Runner:
                 col[:] = np.array([v] * len(col))
             else:
                 raise AssertionError(path)
+        elif o == 'refuse':               # a write the column is expected to REFUSE: the exception is the observation
+            self.refuse(op[1], op[2], RVALS[op[3]])
         elif o == 'whole':                # dm.c = [...]
             self.dm[self.wname] = dec_list(op[1])
         elif o == 'wholescalar':          # dm.c = v
@@ -608,6 +638,89 @@ class Runner:
             raise AssertionError(op)
 
 
+def _runner_refuse(self, form, where, v):
+    """one write of the value v through `form`; an exception it raises is caught and recorded (class name), never
+    propagated: the column is read afterwards whatever happened.  where = [i, j] (two positions, i < j, or [0, 0])"""
+    from datamatrix import DataMatrix, MixedColumn
+    dm = self.dm
+    col = self.wcol()
+    n = len(col)
+    i, j = (where + [0, 0])[:2]
+    i, j = (min(i, n - 1), min(j, n)) if n else (0, 0)
+    cur = [plain(x) for x in col]
+    if self.free is not None and form not in R_FORMS_FREE:
+        form = 'all'
+    if n == 0 and form in ('int', 'row', 'list', 'listlist'):
+        form = 'all'
+    withv = list(cur)
+    if n:
+        withv[i] = v
+    src = None
+    if form == 'colobj':                  # col[:] = <a column of another table holding v>
+        try:
+            dm2 = DataMatrix(length=n)
+            dm2.x = MixedColumn
+            if n:
+                dm2.x = [v] * n
+            src = dm2.x
+        except Exception:       # noqa: BLE001 -- a MixedColumn cannot hold v either: written as a plain value instead
+            form = 'all'
+    try:
+        if form == 'whole':
+            dm[self.wname] = withv
+        elif form == 'wholescalar':
+            dm[self.wname] = v
+        elif form == 'all':
+            col[:] = v
+        elif form == 'alllist':
+            col[:] = withv
+        elif form == 'slice':
+            col[i:max(j, i + 1)] = v
+        elif form == 'slicelist':
+            col[i:max(j, i + 1)] = withv[i:max(j, i + 1)]
+        elif form == 'int':
+            col[i] = v
+        elif form == 'list':
+            col[sorted(set([i, max(j - 1, i)]))] = v
+        elif form == 'listlist':
+            idx = sorted(set([i, max(j - 1, i)]))
+            col[idx] = [cur[q] for q in idx[:-1]] + [v]
+        elif form == 'sel':
+            col[dm.k >= int(min([int(x) for x in dm.k] or [0])) + i] = v
+        elif form == 'row':
+            setattr(dm[i], self.wname, v)
+        elif form == 'wronglen':
+            dm[self.wname] = (cur + [1]) if (j % 2 or not n) else cur[:-1]
+        elif form == 'slicewronglen':
+            col[0:n] = (cur + [1]) if (j % 2 or not n) else cur[:-1]
+        elif form == 'array':
+            col[:] = np.array([v] * n, dtype=object) if not isinstance(v, (float, np.floating)) else np.array([v] * n)
+        elif form == 'colobj':
+            col[:] = src
+        else:
+            raise AssertionError(form)
+        res = 'accepted'
+    except AssertionError:
+        raise
+    except Exception as e:      # noqa: BLE001 -- the refusal IS the observation
+        res = type(e).__name__
+    self.refusals.append((len(self.readings), res))
+
+
+Runner.refuse = _runner_refuse
+
+
+def run_program2(kind, vals, prog):
+    """-> (readings, refusals)"""
+    with warnings.catch_warnings():
+        warnings.simplefilter('ignore')
+        r = Runner(kind, vals)
+        for op in prog:
+            r.apply(op)
+        r.read()
+    return r.readings, r.refusals
+
+
 def run_program(kind, vals, prog):
     """-> list of readings (the last one is the final reading).  Raises ReadFailed / Unclassified / any exception
     of a building step."""
@@ -618,6 +731,22 @@ def run_program(kind, vals, prog):
             r.apply(op)
         r.read()
     return r.readings
+
+
+def same_float(a, b):
+    return (a != a and b != b) or (a == b and math.copysign(1.0, a) == math.copysign(1.0, b))
+
+
+def same_cells(a, b):
+    """the same values of the same types, position by position (NaN ~ NaN)"""
+    if len(a) != len(b):
+        return False
+    for x, y in zip(a, b):
+        if type(x) is not type(y):
+            return False
+        if not (x == y or (x != x and y != y)):
+            return False
+    return True
 
 
 class C12:
@@ -645,7 +774,7 @@ class C12:
             'again; int cells near the int64 / 2^53 limits (2^62 several times, 2^63-1, -2^63, 2^53+1 repeated, mixed '
             'signs cancelling, 2^31/2^32, sqrt(2^63)) whose total, partial sums or sum of squares leave int64 / binary64 '
             'exactness, in all three column types with cross-type agreement (the `sum` of an IntColumn whose exact total '
-            'is not an int64 value is left unjudged: pending finding). '
+            'is not an int64 value is judged like every other statistic since /repo sums integer buffers exactly). '
             'Columns are built by PROGRAMS executed on the implementation: plain assignment; `dm.c = dm.c @ f`, map_ '
             'and FREE columns (`col @ f`, `col + x` with NumPy / Fraction / bool operands, column slices and selections, never '
             'inserted: since the repair of DataMatrix._set_col only these keep unchecked cells), further mapped, sliced, '
@@ -656,7 +785,15 @@ class C12:
             'order, mapped or not), delete row, rename, alias (`dm.b = dm.c`, written through one name and read '
             'through the other), copy, replace; cell writes through int / slice / index-list / selection / Row / '
             '`col[:] = v` / `col[:] = other column` / NumPy array / whole-column list, scalar and column (by '
-            'reference, copied, derived) assignment; delete-and-recreate and re-typing under the same name.  Sequence programs read all statistics + unique + count, apply '
+            'reference, copied, derived) assignment; delete-and-recreate and re-typing under the same name; REFUSED writes (family '
+            'refused-write: a value beyond int64 -- int, float, NumPy scalar, numeric text -- text / None / nan / inf into an IntColumn, '
+            'objects, nested sequences, dicts, sets, bytes and sequences of the wrong length into every column type, through 15 write '
+            'forms: whole-column list / scalar, col[:] scalar / list, slice scalar / list, int, index list scalar / list, selection, Row, '
+            'wrong-length whole / slice, NumPy array, a column of another table): the write raises (OverflowError / TypeError / '
+            'ValueError; recorded, not propagated), the column -- 60 % of the IntColumns hold int64 cells whose exact total leaves '
+            'int64 -- is read again, used further (derived, mutated, detached) and read again: every reading is judged against the '
+            'cells held then, and two readings with only raising writes between them that hold the same cells must give bit-identical '
+            'statistics, unique and count.  Sequence programs read all statistics + unique + count, apply '
             '1-3 of these modifications, and read again after each: EVERY reading is judged against the cells the '
             'column holds at that moment. non-trivial = at least two numbers or at least one ignored cell in the '
             'final reading; distinct by (kind, program, cells of every reading)')
@@ -762,6 +899,10 @@ class C12:
                 pyfail.append('%s: implementation returned %r, textbook value %s (= %.17g%s) differs by more than '
                               'the tolerance (at most 1e-9 relative)' % (ATTR[s], x, r0, math.sqrt(r0) if s == 'Var' else float(r0),
                                                  ', root of the variance' if s == 'Var' else ''))
+        if INCLUDE_PENDING_FINDINGS and kind != 'KMixed' and not set(obs.get('_celltypes', [])) <= {'int', 'float'}:
+            # C05's promise (documented there): after a refused slice / whole-column write of a value beyond int64 an
+            # IntColumn hands out numpy.int64 cells on the unchanged tree (the `self.dtype = np.int64` fallback)
+            pyfail.append('cells are read as %s, not as plain Python numbers' % ', '.join(obs['_celltypes']))
         if cross and scope:
             # the same numbers in the other column types: the implementations must agree with each other as well
             numsonly = [c for c in cells if is_num(c)]
@@ -799,6 +940,27 @@ class C12:
         return {'oracle': reading, 'model': mreading, 'pyfail': pyfail, 'verdict': verdict, 'scope': scope,
                 'n_exact': n_exact, 'n_ulp': n_ulp, 'l0': l0, 'skipped': sorted(skip)}
 
+    @staticmethod
+    def refusal_pairs(prog, refusals):
+        """(index of reading a, index of reading b, description of the steps between) for every two consecutive readings
+        with nothing but 'refuse' steps that RAISED between them"""
+        out = []
+        nread, between, k = 0, None, 0
+        for op in list(prog) + [['read']]:
+            if op[0] == 'read':
+                if between and all(b is not None for b in between) and nread:
+                    out.append((nread - 1, nread, between))
+                nread += 1
+                between = []
+            elif between is not None:
+                if op[0] == 'refuse' and k < len(refusals) and refusals[k][1] != 'accepted':
+                    between.append('%s %s -> %s' % (op[1], op[3], refusals[k][1]))
+                else:
+                    between.append(None)
+            if op[0] == 'refuse':
+                k += 1
+        return out
+
     # ---- implementation runner ------------------------------------------
     def rerun(self, inp):
         kind = inp['kind']
@@ -807,7 +969,7 @@ class C12:
         tags = list(inp.get('tags', []))
         keep = {k: v for k, v in inp.items() if k != 'may_reject'}
         try:
-            readings = run_program(kind, vals, prog)
+            readings, refusals = run_program2(kind, vals, prog)
         except Unclassified:
             return None
         except ReadFailed as e:
@@ -842,6 +1004,24 @@ class C12:
         for i, j in enumerate(js):
             for s in j['verdict']:
                 verdict.append(s if i == len(js) - 1 else '%s@reading%d' % (s, i + 1))
+        # two readings with nothing but REFUSED writes in between, holding the same cells: the same statistics, bit for bit
+        for a, b, toks in self.refusal_pairs(prog, refusals):
+            (k1, c1, o1, u1, n1), (k2, c2, o2, u2, n2) = readings[a], readings[b]
+            if k1 != k2 or not same_cells(c1, c2):
+                tags.append('cells-changed-by-a-raising-write')
+                continue
+            diff = [ATTR[s] for s in STATS if not same_float(o1[s], o2[s])]
+            if not same_cells(u1, u2):
+                diff.append('unique')
+            if n1 != n2:
+                diff.append('count')
+            if diff:
+                verdict.append('changed-by-refused-write:' + ','.join(diff))
+                pyfail.append('reading %d and reading %d hold the same cells %r and only refused writes (%s) lie between them, but %s'
+                              ' changed: %r -> %r' % (a + 1, b + 1, c1[:12], '; '.join(toks), ', '.join(diff),
+                                                      {ATTR[s]: o1[s] for s in STATS}, {ATTR[s]: o2[s] for s in STATS}))
+        for _at, res in refusals:
+            tags.append('refusal:' + res)
         n_junk = len(cells) - len(last['l0'])
         tags += [kf, 'len%02d' % len(cells) if len(cells) < 13 else 'len13+',
                  'numbers%d' % len(last['l0']) if len(last['l0']) < 3 else 'numbers3+']
@@ -870,6 +1050,9 @@ class C12:
                 tags.append('cell:' + type(c).__name__)
         for op in prog:
             tags.append('op:' + op[0] + (':' + str(op[1]) if op[0] in ('set', 'map', 'map_', 'mapfree') else ''))
+        for op in prog:
+            if op[0] == 'refuse':
+                tags += ['refuse-form:' + op[1], 'refuse-value:' + op[3]]
         for op in prog:
             if op[0] == 'farith':
                 tags.append('free-arith:%s%s' % ('x' + op[1] + 'col' if op[2] == 'r' else 'col' + op[1] + 'x',
@@ -1025,6 +1208,20 @@ class C12:
         x = rng.choice(self.XINT[opn] if rng.random() < 0.6 else self.XFLT[opn]) or 3
         return ['fiop', opn, enc_x(x)]
 
+    def refuse_step(self, rng, r, form=None, vclass=None):
+        """a write the column under test refuses (mostly): form x value class chosen for the column's present type"""
+        col = r.wcol()
+        kind = kind_of(col)
+        n = len(col)
+        form = form or rng.choice(R_FORMS)
+        if vclass is None:
+            vclass = rng.choice(['overflow', 'overflow', 'type', 'any'] if kind == 'KInt' else ['any'])
+        pool = R_OVERFLOW if vclass == 'overflow' else R_TYPE_INT if vclass == 'type' else R_TYPE_ANY
+        if kind != 'KInt' and vclass != 'any':
+            pool = R_TYPE_ANY
+        a = rng.randrange(n) if n else 0
+        return ['refuse', form, [a, rng.randint(a + 1, n) if n else 0], rng.choice(pool)]
+
     def pick(self, rng, r, family):
         """one admissible step for the current state of the runner r; family in derive | mutate | detach"""
         n = len(r.dm)
@@ -1172,6 +1369,8 @@ class C12:
                         op = self.free_arith(rng, r, *fam.split(':')[1:])
                     elif fam == 'fiop':
                         op = self.free_iop(rng, r)
+                    elif fam.startswith('refuse'):       # 'refuse' or 'refuse:<form>:<value class>'
+                        op = self.refuse_step(rng, r, *fam.split(':')[1:])
                     else:
                         op = self.pick(rng, r, fam)
                     r.apply(op)
@@ -1379,6 +1578,30 @@ class C12:
                 prog = self.program(rng, 'KInt', vals, rng.choice([['derive'], ['read', 'mutate'], ['detach']]))
                 if prog is not None:
                     add('KInt', vals, ['int64-edge'], prog=prog)
+        # 10. statistics read after REFUSED writes: a value the column cannot hold (beyond int64: OverflowError; text / None /
+        #     nan / inf into an IntColumn, objects / nested sequences / dicts / sets / bytes into any column: TypeError /
+        #     ValueError) or a sequence of the wrong length, through every write form (whole column list / scalar, col[:],
+        #     slice, int, index list, selection, Row, NumPy array, a column of another table), on each column type -- on
+        #     IntColumns whose exact total leaves int64 in particular.  The write raises, the cells are read again: every
+        #     statistic must be that of the cells held then, and bit-identical to the reading before when the cells are
+        #     unchanged; the column is then used further (derived, mutated, detached)
+        combos = [('KInt', f, vc) for f in R_FORMS for vc in ('overflow', 'type', 'any')]
+        combos += [('KInt', f, 'overflow') for f in ('whole', 'wholescalar', 'all', 'alllist', 'slice', 'slicelist', 'array', 'colobj')]
+        combos += [(k, f, 'any') for k in ('KFloat', 'KMixed') for f in R_FORMS]
+        for i in range(len(combos) * (2 if quick else 12)):
+            kind, form, vc = combos[i % len(combos)]
+            if kind == 'KInt' and rng.random() < 0.6:
+                vals = list(rng.choice(R_BIGTOTAL))
+                rng.shuffle(vals)
+            else:
+                vals = self.modest(rng, kind, 6)
+            rf = 'refuse:%s:%s' % (form, vc)
+            shape = rng.choice([[rf], [rf], ['read', rf], ['read', rf], ['read', rf, 'read', 'refuse'], [rf, 'read', 'mutate'],
+                                [rf, 'derive'], [rf, 'detach'], ['derive', rf], ['mutate', 'read', rf], ['detach', 'read', rf],
+                                [rf, 'refuse', 'read', 'mutate']])
+            prog = self.program(rng, kind, vals, shape)
+            if prog is not None:
+                add(kind, vals, ['refused-write'], prog=prog, cross=(i % 4 == 0))
         # 4. outside the quantifier: infinities
         for _ in range(30 if quick else 300):
             base = self.numbers(rng, 6)
